@@ -117,7 +117,11 @@ impl<A, C: Clock, F: Filter, R: Rng, S: PtpInstanceStateMutex> Port<'_, InBmca, 
     pub(crate) fn step_announce_age(&mut self, step: Duration) {
         if let Some(mut age) = self.multiport_disable.take() {
             age += step;
-            if age < self.config.announce_interval.as_duration() {
+            // The BMCA runs once per announce interval, so the announce that keeps this
+            // marker alive arrives about once per step. Tolerate one step without it:
+            // delivery jitter regularly puts two announces in one BMCA period and none in
+            // the next, and dropping the marker then makes the port flap to master.
+            if age <= self.config.announce_interval.as_duration() {
                 self.multiport_disable = Some(age)
             }
         }
